@@ -79,7 +79,7 @@ def fieldContract [DecidableEq V] (W : World V) (o : Opts V) (f : PField V) (dat
   | c :: rest =>
     if noInput W o f c then ⟨filled o f, [], true, false⟩ else          -- input ignored
     let conflict := if !o.ignoreAliasConflicts && rest.any (· ≠ c) then [Err.aliasConflict f.name] else []
-    match W.fp f.attname c with
+    match convert W f c with
     | some r => ⟨some r, conflict, true, true⟩
     | none =>
       match f.onError.getD o.invalidValues with
